@@ -46,6 +46,9 @@ type world struct {
 	// cleanLeft: how many cleaner ticks (the once-a-minute housekeeping of the hello handler) may still be
 	// injected per side; 0 in the exhaustive spaces
 	cleanLeft [2]int
+	// errLeft: how many authentic "no encryption keys" error pings each side may still send to the other (what a
+	// router does when traffic arrives that it has no keys for); they travel like every other message
+	errLeft [2]int
 }
 
 func (w *world) node(side int) *vmesh.Node {
@@ -108,6 +111,9 @@ func (w *world) actions(allowRetry bool) []action {
 		if w.cleanLeft[s] > 0 && w.ms.Pending() > 0 {
 			acts = append(acts, action{"clean", s})
 		}
+		if w.errLeft[s] > 0 && w.ms.Pending() > 0 {
+			acts = append(acts, action{"errping", s})
+		}
 	}
 	return acts
 }
@@ -133,6 +139,12 @@ func (w *world) apply(act action) error {
 		n := w.node(act.idx)
 		if err := n.Inst.RouterV.Manager().Do("verif hello clean", func(wc *mgr.WorkerCtx) error { return n.Inst.RouterV.HelloPing.Clean(wc) }); err != nil {
 			return err
+		}
+	case "errping":
+		w.errLeft[act.idx]--
+		w.trace = append(w.trace, "no-keys-error-ping from "+sideName(act.idx))
+		if err := w.node(act.idx).Inst.RouterV.ErrorPing.SendNoEncryptionKeys(w.peerOf(act.idx).ID.IP); err != nil {
+			w.trace = append(w.trace, "(not sent: "+err.Error()+")")
 		}
 	case "retry":
 		w.retries[act.idx]--
@@ -179,6 +191,8 @@ type setup struct {
 	prior int
 	// cleans: cleaner ticks that may be injected per side while messages are in flight
 	cleans int
+	// errs: "no encryption keys" error pings each side may send while messages are in flight
+	errs int
 }
 
 func buildWorld(r *rand.Rand, s setup, retries int) (*world, error) {
@@ -211,6 +225,7 @@ func buildWorld(r *rand.Rand, s setup, retries int) (*world, error) {
 	w := &world{ms: ms, a: a, b: b, dupped: map[string]bool{}, names: map[string]string{}}
 	w.retries = [2]int{retries, retries}
 	w.cleanLeft = [2]int{s.cleans, s.cleans}
+	w.errLeft = [2]int{s.errs, s.errs}
 	if s.prior > 0 {
 		if err := w.initiate(0); err != nil {
 			return nil, fmt.Errorf("prior setup: %w", err)
@@ -484,6 +499,15 @@ func run(c *core.Ctx) {
 	for _, swapped := range []bool{false, true} {
 		s := setup{relay: false, swapped: swapped, ids: ids, cleans: 1}
 		jobs = append(jobs, job{s, 2, 0, 0, c.Q(400, 8000)}, job{s, 3, 0, 0, c.Q(400, 8000)})
+	}
+	// with "no encryption keys" error pings crossing the setup messages (seeded sampling; one or both initiate)
+	for _, swapped := range []bool{false, true} {
+		for _, relay := range []bool{false, true} {
+			s := setup{relay: relay, swapped: swapped, ids: ids, errs: 1}
+			for is := range initiatorSets {
+				jobs = append(jobs, job{s, is, 0, 0, c.Q(500, 8000)})
+			}
+		}
 	}
 	parallel(len(jobs), func(w int) {
 		j := jobs[w]
